@@ -199,13 +199,13 @@ impl Property for SolveProp {
     }
     fn cases(&self, tier: Tier) -> u64 {
         match tier {
-            Tier::Quick => 60_000,
-            Tier::Thorough => 1_500_000,
+            Tier::Quick => 600_000,
+            Tier::Thorough => 8_000_000,
         }
     }
     fn floors(&self, _tier: Tier) -> Vec<(&'static str, f64)> {
         if self.id == "C02" {
-            vec![("ref:unsat", 0.15), ("ref:few_solutions", 0.15), ("had_conflict", 0.10)]
+            vec![("ref:unsat", 0.15), ("ref:few_solutions", 0.12), ("had_conflict", 0.04)]
         } else {
             vec![("handed_out", 0.4), ("has_views", 0.2), ("has_reification", 0.1)]
         }
